@@ -1179,3 +1179,47 @@ M('C16-twin-close-under-acquire', 'C16', CONN,
   "        with self._write_lock:\n            if (self.new_networking_thread\n                    or self.networking_thread).interrupt:\n                self.disconnect(immediate=True)",
   "        self._write_lock.acquire()\n        try:\n            newest = self.new_networking_thread or self.networking_thread\n            if newest.interrupt:\n                self.disconnect(immediate=True)\n        finally:\n            self._write_lock.release()",
   expect='silent')
+
+# ---------------------------------------------------------------- wave 9
+M('C02-twin-denominator-shift', 'C02', BASIC,
+  "        self.denominator = 2**fractional_bits",
+  "        self.denominator = 1 << fractional_bits", expect='silent')
+M('C02-fixedpoint-default-6', 'C02', BASIC,
+  "    def __init__(self, integer_type, fractional_bits=5):",
+  "    def __init__(self, integer_type, fractional_bits=6):", rule='R02.6')
+M('C13-decorator-pops-options', 'C13', CONN,
+  "            self.register_packet_listener(handler_func, *packet_types, **kwds)",
+  "            self.register_packet_listener(\n                handler_func, *packet_types,\n                early=kwds.pop('early', False),\n                outgoing=kwds.pop('outgoing', False))",
+  rule='R13.6')
+M('C13-twin-decorator-gets-options', 'C13', CONN,
+  "            self.register_packet_listener(handler_func, *packet_types, **kwds)",
+  "            self.register_packet_listener(\n                handler_func, *packet_types,\n                early=kwds.get('early', False),\n                outgoing=kwds.get('outgoing', False))",
+  expect='silent')
+M('C13-decorator-swaps-options', 'C13', CONN,
+  "            self.register_packet_listener(handler_func, *packet_types, **kwds)",
+  "            self.register_packet_listener(\n                handler_func, *packet_types,\n                early=kwds.get('outgoing', False),\n                outgoing=kwds.get('early', False))",
+  rule='R13.6')
+M('C14-decorator-pops-options', 'C14', CONN,
+  "            self.register_exception_handler(handler_func, *exc_types, **kwds)",
+  "            self.register_exception_handler(\n                handler_func, *exc_types, early=kwds.pop('early', False))",
+  rule='R14.7d')
+M('C17-twin-lstrip-fast-path', 'C17', ENC,
+  "    number_representation = _number_from_bytes(sha1_hash.digest(), signed=True)\n    return format(number_representation, 'x')",
+  "    text = sha1_hash.hexdigest()\n    if text[0] < '8':\n        return text.lstrip('0') or '0'\n    number_representation = _number_from_bytes(sha1_hash.digest(), signed=True)\n    return format(number_representation, 'x')",
+  expect='undecided')
+M('C17-rstrip-fast-path', 'C17', ENC,
+  "    number_representation = _number_from_bytes(sha1_hash.digest(), signed=True)\n    return format(number_representation, 'x')",
+  "    text = sha1_hash.hexdigest()\n    if text[0] < '8':\n        return text.rstrip('0').lstrip('0') or '0'\n    number_representation = _number_from_bytes(sha1_hash.digest(), signed=True)\n    return format(number_representation, 'x')",
+  rule='R17.2')
+M('C05-twin-presence-is-not-none', 'C05', SB_LOGIN,
+  "        successful = getattr(self, 'data', None) is not None\n        successful = getattr(self, 'successful', successful)",
+  "        data = getattr(self, 'data', None)\n        successful = getattr(self, 'successful', data is not None)",
+  expect='silent')
+M('C08-context-default-via-or', 'C08', CONN,
+  "        self.protocol_version = kwds.get('protocol_version')",
+  "        self.protocol_version = kwds.get('protocol_version') or None",
+  expect='violation', rule='R08.1')
+M('C01-play-compression-arm-forgets-flag', 'C01', CONN,
+  "        if packet.packet_name == \"set compression\":\n            self.connection.options.compression_threshold = packet.threshold\n            self.connection.options.compression_enabled = True",
+  "        if packet.packet_name == \"set compression\":\n            self.connection.options.compression_threshold = packet.threshold",
+  rule='R01.7')
